@@ -226,9 +226,10 @@ func vfhC11StopTwoLevel() {
 // unchanged; Nearest reports emptiness correctly.
 func vfhC11PrioritySearch() {
 	n := vfInt("n", 0, 3)
+	base := vfInt("id-base", -2, 0) // record ids are arbitrary ints: negative ones too
 	items := make([]BulkItem, n)
 	for i := range items {
-		items[i] = BulkItem{Box: vfBoxL("b"), RecordID: i}
+		items[i] = BulkItem{Box: vfBoxL("b"), RecordID: base + i}
 	}
 	q := vfBoxL("q")
 	t := BulkLoad(items)
@@ -237,6 +238,7 @@ func vfhC11PrioritySearch() {
 	how := 0
 	err := t.PrioritySearch(q, func(id int) error {
 		vfAssert(!stopped, "callback invoked again after it returned Stop or an error")
+		id -= base
 		vfAssert(id >= 0 && id < n, "record id is one of the loaded ids")
 		seen[id]++
 		how = vfInt("cb", 0, 3)
@@ -270,8 +272,9 @@ func vfhC11PrioritySearch() {
 	if stopped {
 		vfReach("stopped")
 	}
-	_, found := t.Nearest(q)
-	vfAssert(found == (n > 0), "Nearest reports an empty tree")
+	nid, found := t.Nearest(q)
+	vfAssert(found == (n > 0), "Nearest reports an empty tree exactly when there is no record")
+	vfAssert(!found || (nid-base >= 0 && nid-base < n), "Nearest returns a loaded id")
 	vfReach("end")
 }
 
